@@ -17,6 +17,16 @@ styles - ``op(x)`` and ``op(x, out=z)`` with a NaN-filled ``z`` - which have to
 agree (clause inplace-matrix) and both enter the Gram identity.  Operands of composite operators are
 checked first (bottom-up), so a failure is attributed to the deepest operator
 whose own adjoint rule is wrong.
+
+Aliasing: every evaluation (of A, A.adjoint, A.adjoint.adjoint, both call
+styles) has to leave its argument bit-unchanged (clause operand-modified;
+``Operator.__call__`` documents the argument as immutable), and the direct
+pair <Ax,y> = <x,A*y> is evaluated with the same two element objects on both
+sides in both orders.  The family ``views`` puts operators whose result is a
+view of their argument (flattening operator, its inverse, their compositions)
+below every arithmetic wrapper and next to a second operand that receives the
+same argument, so that a wrapper scaling "its" result in place is seen both
+directly and through the second use.
 """
 import numpy as np
 
@@ -70,12 +80,19 @@ TOLERANCES = {
                       'when ||M J_X - J_Y M|| is within it',
     'linearity': '|A(x) - M x| <= 4*64*eps*dim*(||M|| ||x||) on one vector, '
                  'A(0) = 0 to the same tolerance',
+    'repeatable': '|A(x)_first call - A(x)_after the matrix extraction| <= '
+                  'the linearity tolerance (no bit comparison: pyfftw plans)',
     'inplace': '||M_inplace - M||_F + |A(0)_inplace - A(0)| <= 2*64*eps*dim*'
                '||M||-bound for A, A.adjoint and A.adjoint.adjoint (out= '
                'element NaN-filled before every call); Gram identity on the '
                'in-place matrices to twice the gram tolerance',
     'pair': '|Re<Ax,y> - Re<x,A*y>| <= 4*64*eps*dim*scale*||x||*||y|| for '
-            'one dense pair (cross-check of the matrix identity)',
+            'one dense pair, the same element objects x, y on both sides, '
+            'evaluated A-first and adjoint-first',
+    'operand-modified': 'exact: the real-ified entries of the argument '
+                        'before and after every call are compared with '
+                        'array_equal (basis vectors, the zero vector and '
+                        'the dense pair; out-of-place and in-place calls)',
     'dft_proportional': 'column-/row-wise fit N = M^T diag(w): residual <= '
                         '1e3*eps*(1+log2 n) relative, w > 0, and for the '
                         'plain DFT w == D_k / prod(n_axes) to the same '
@@ -114,14 +131,39 @@ ASSUMPTIONS = [
     'transformed sizes divisible by 2^nlevels (documented exactness region)',
     'vectors inside operators (multiplicands, derivative points) are '
     'half-integers from a seeded RandomState, seed 0 = all ones',
+    'Operator.__call__ documents its argument as "treated as immutable, '
+    'hence it is not modified during evaluation": a call that changes its '
+    'argument is reported (clause operand-modified) because the identity '
+    '<Ax,y> = <x,A*y> then fails for the natural evaluation with one x; a '
+    'result that merely shares memory with the argument is allowed '
+    '(documented for FlatteningOperator-like operators) and counted as '
+    'stratum alias:result-views-argument',
+    'family inverses: A.inverse of configurations that are invertible by '
+    'construction (non-zero scalars and vectors, diagonally dominant '
+    'matrices, flattening, embeddings, resizing pseudo-inverse, and their '
+    'scalar / vector multiples, compositions, diagonal block operators) is '
+    'examined like any other operator; the documentation does not say that '
+    'an inverse offers an adjoint (expectation silent), a missing inverse '
+    'makes the case trivial',
 ]
-RULE = ('Hypothesis draws a family (13 families: default_ops, complex_ops, '
+RULE = ('Hypothesis draws a family (15 families: default_ops, complex_ops, '
         'matrix, sampling, pointwise, projection, diff_ops, resize, fourier, '
-        'wavelet, blocks, derivs, tree; weighted towards expression trees), '
+        'wavelet, blocks, derivs, tree, views, inverses; weighted towards '
+        'expression trees), '
         'then a catalogue entry with its options and spaces, or a typed '
         'expression tree of depth 1-3 (sum, composition, left/right scalar '
-        'and vector multiples, adjoint-of, power, block operators with zero '
-        'blocks) over a small universe of spaces; every operand of a '
+        'and vector multiples in * and @ spelling, +A, -A, adjoint-of, '
+        'power, explicit temporaries, block operators with zero blocks '
+        'spelled None or 0) over a small universe of spaces; family views: '
+        'a view-returning core (FlatteningOperator, its inverse, their '
+        'compositions, identity) under one of 12 arithmetic wrappers (v*A, '
+        'A*v, s*A, A*s, A/s, -A, MultiplyOperator before/after, adjoint of a '
+        'wrapped view in the opposite direction), alone or combined with a '
+        'second operand receiving the same argument (sum, difference, '
+        'broadcast, block column) or sharing an accumulator / chain '
+        '(reduction, block row, diagonal, 2x2 block operator, outer wrapper, '
+        'composition), the unwrapped view on either side; family inverses: '
+        'A.inverse of invertible configurations; every operand of a '
         'composite is checked before the composite (bottom-up); '
         'non-trivial = the oracle was evaluated and (some space is weighted, '
         'complex, product or has boundary nodes, or the tree has depth >= 2); '
@@ -303,23 +345,52 @@ class Engine(object):
                                                 getattr(y, 'space', type(y))))
         return y
 
+    @staticmethod
+    def unchanged(x, before, dom, op, what, sig_tail, style):
+        """Documented (``Operator.__call__``): the argument "is treated as
+        immutable, hence it is not modified during evaluation".  An operator
+        that writes into its argument breaks the identity as soon as ``x`` is
+        used a second time (the other side of <Ax,y> = <x,A*y>, the second
+        summand of a sum, the next block of a block operator)."""
+        if isinstance(dom, Field):
+            return
+        after = flat.flat(x, dom)
+        if after.shape == before.shape and np.array_equal(after, before):
+            return
+        k = int(np.argmax(after != before)) if after.shape == before.shape \
+            else 0
+        raise Violation(
+            'C05|operand-modified|{},of={},style={}'.format(sig_tail, what,
+                                                            style),
+            'evaluating {what} ({style}) changed its argument: real entry '
+            '{k} was {b!r} before the call and is {a!r} afterwards, so '
+            '<{what} x, y> and <x, ...> evaluated with the same x no longer '
+            'refer to the same vector; operator = {op!r}'.format(
+                what=what, style=style, k=k, b=float(before[k]),
+                a=float(after[k]) if after.shape == before.shape else None,
+                op=op)[:900])
+
     def matrix(self, op, dom, ran, what, sig_tail):
         n, m = flat.rdim(dom), flat.rdim(ran)
-        off = flat.flat(self.apply(op, flat.unflat(np.zeros(n), dom), ran,
-                                   what, sig_tail), ran)
+        zero = np.zeros(n)
+        x = flat.unflat(zero, dom)
+        off = flat.flat(self.apply(op, x, ran, what, sig_tail), ran)
         if off.shape != (m,):
             raise Violation('C05|result-type|' + sig_tail,
                             '{} result has {} real entries, expected {}'
                             ''.format(what, off.shape, m))
+        self.unchanged(x, zero, dom, op, what, sig_tail, 'out-of-place')
         M = np.empty((m, n))
         eye = np.eye(n)
         for k in range(n):
-            M[:, k] = flat.flat(self.apply(op, flat.unflat(eye[k], dom), ran,
-                                           what, sig_tail), ran)
+            x = flat.unflat(eye[k], dom)
+            M[:, k] = flat.flat(self.apply(op, x, ran, what, sig_tail), ran)
+            # 0 and 1 are exact in every floating dtype
+            self.unchanged(x, eye[k], dom, op, what, sig_tail, 'out-of-place')
         return M, off
 
 
-    def matrix_inplace(self, op, dom, ran):
+    def matrix_inplace(self, op, dom, ran, what='A', sig_tail=''):
         """The same matrix through ``op(x, out=z)`` with a NaN-filled ``z``
         (``None`` for field-valued operators, which document that ``out``
         cannot be used)."""
@@ -329,12 +400,14 @@ class Engine(object):
         M = np.empty((m, n + 1))
         eye = np.eye(n)
         for k in range(n + 1):
-            x = flat.unflat(eye[k] if k < n else np.zeros(n), dom)
+            v = eye[k] if k < n else np.zeros(n)
+            x = flat.unflat(v, dom)
             z = ran.element()
             for arr in build.leaf_arrays_of(z):
                 arr[...] = np.nan
             op(x, out=z)
             M[:, k] = flat.flat(z, ran)
+            self.unchanged(x, v, dom, op, what, sig_tail, 'in-place')
         return M[:, :n], M[:, n]
 
     def both_styles(self, op, dom, ran, M, off, what, tail, tol):
@@ -342,7 +415,9 @@ class Engine(object):
         one (``M``, ``off``).  Returns the in-place matrix or None."""
         cls = type(op).__name__
         try:
-            res = self.matrix_inplace(op, dom, ran)
+            res = self.matrix_inplace(op, dom, ran, what, tail)
+        except Violation:
+            raise
         except Exception as e:  # noqa
             where, site = _where(e)
             if where != 'odl':
@@ -375,6 +450,21 @@ class Engine(object):
 
 def _fro(a):
     return float(np.sqrt(np.sum(np.abs(a) ** 2)))
+
+
+def _has_view(node):
+    """Some operator in the subtree returns a view of its argument."""
+    return node.views or any(_has_view(k) for k in node.children)
+
+
+def _shares(a, b):
+    """Does element ``a`` share memory with element ``b``?"""
+    try:
+        return any(np.shares_memory(u, v)
+                   for u in build.leaf_arrays_of(a)
+                   for v in build.leaf_arrays_of(b))
+    except Exception:  # noqa: field elements and the like
+        return False
 
 
 def _worst(lhs, rhs):
@@ -519,6 +609,13 @@ def check_operator(node, eng, bound_children):
         eng.strata.append('status:not-flagged-linear:' + cls)
         return None
 
+    # the very first evaluation is a dense vector (repeated after the matrix
+    # extraction: an operator that keeps state between calls - e.g. scales a
+    # stored vector in place - has no matrix, and evaluating the zero vector
+    # first could hide it)
+    x_probe = np.cos(np.arange(1, n + 1) * 1.7) * 2.0
+    Ax_first = flat.flat(eng.apply(A, flat.unflat(x_probe, X), Y, 'A',
+                                   '{}|{}'.format(cls, reg)), Y)
     M, off = eng.matrix(A, X, Y, 'A', '{}|{}'.format(cls, reg))
     if not np.all(np.isfinite(M)):
         eng.strata.append('status:non-finite-matrix:' + cls)
@@ -539,10 +636,34 @@ def check_operator(node, eng, bound_children):
         tail += ',' + opts
     # linear at all?  A(0) = 0 and A(x) = M x for one dense vector
     x = np.cos(np.arange(1, n + 1) * 1.7) * 2.0
-    Ax = flat.flat(eng.apply(A, flat.unflat(x, X), Y, 'A', tail), Y)
-    # (fresh elements for every call: an operator overwriting its input is
-    # C03's business and must not leak into this oracle)
+    xe = flat.unflat(x, X)
+    x0 = flat.flat(xe, X)
+    Axe = eng.apply(A, xe, Y, 'A', tail)
+    Ax = flat.flat(Axe, Y)
+    eng.unchanged(xe, x0, X, A, 'A', tail, 'out-of-place')
+    # aliasing regime: the result is a view of the argument (documented as
+    # possible, e.g. FlatteningOperator), or an operand's result is
+    if _shares(Axe, xe):
+        node.views = True
+        eng.strata.append('alias:result-views-argument')
+    if any(_has_view(k) for k in node.children):
+        eng.strata.append('alias:operand-result-views-argument:' + cls)
+        eng.strata.append('alias:operand-result-views-argument')
+    del xe, Axe
+    # (fresh elements for every call of the matrix / linearity clauses; that
+    # no call changes its argument is asserted separately - clause
+    # operand-modified - and the pair clause below uses x and y twice)
     lin_tol = max(ktol * bound * _fro(x) * 4, floor)
+    if Ax_first.shape != Ax.shape or not _fro(Ax - Ax_first) <= lin_tol:
+        raise Violation('C05|not-repeatable|' + tail,
+                        'A(x) for the same dense x differs between the first '
+                        'evaluation and the one after {} further calls: '
+                        '|difference| = {:.3g} (tol {:.3g}) - the operator '
+                        'keeps state, <Ax,y> depends on the call history; '
+                        'A = {!r}'.format(n + 1, _fro(Ax - Ax_first)
+                                          if Ax_first.shape == Ax.shape
+                                          else float('nan'), lin_tol,
+                                          A)[:800])
     if _fro(off) > lin_tol or _fro(Ax - M @ x) > lin_tol:
         raise Violation('C05|not-linear|' + tail,
                         'operator is flagged linear but A(0) = {:.3g}, '
@@ -681,20 +802,37 @@ def check_operator(node, eng, bound_children):
         eng.strata.append('gram-inplace-checked')
 
     # ---- one direct pair (the form in which the property is stated) -------
+    # The SAME two element objects x, y enter both sides, as in
+    # ``A(x).inner(y)`` followed by ``x.inner(A.adjoint(y))``: a call that
+    # writes into its argument (possibly through a result that is a view of
+    # it) corrupts the second use.  Both evaluation orders.
     xv = np.cos(np.arange(1, n + 1) * 1.7) * 2.0
     yv = np.sin(np.arange(1, m + 1) * 0.9 + 0.3) * 1.5
-    left = float(np.real(flat.sinner(
-        Y, eng.apply(A, flat.unflat(xv, X), Y, 'A', tail),
-        flat.unflat(yv, Y))))
-    right = float(np.real(flat.sinner(
-        X, flat.unflat(xv, X),
-        eng.apply(adj, flat.unflat(yv, Y), X, 'A.adjoint', tail))))
     pair_tol = max(4 * ktol * scale * _fro(xv) * _fro(yv), floor)
-    if not abs(left - right) <= pair_tol:
-        raise Violation('C05|pair|' + tail,
-                        'matrices satisfy the Gram identity but Re<Ax,y> = '
-                        '{!r} and Re<x,A*y> = {!r} for a dense pair (operator '
-                        'with state, or not linear?)'.format(left, right))
+    for order in ('A-first', 'adjoint-first'):
+        xe, ye = flat.unflat(xv, X), flat.unflat(yv, Y)
+        x0, y0 = flat.flat(xe, X), flat.flat(ye, Y)   # (rounded to the dtype)
+        if order == 'A-first':
+            Ax = eng.apply(A, xe, Y, 'A', tail)
+            left = float(np.real(flat.sinner(Y, Ax, ye)))
+            Aty = eng.apply(adj, ye, X, 'A.adjoint', tail)
+            right = float(np.real(flat.sinner(X, xe, Aty)))
+        else:
+            Aty = eng.apply(adj, ye, X, 'A.adjoint', tail)
+            right = float(np.real(flat.sinner(X, xe, Aty)))
+            Ax = eng.apply(A, xe, Y, 'A', tail)
+            left = float(np.real(flat.sinner(Y, Ax, ye)))
+        eng.unchanged(xe, x0, X, A, 'A', tail, 'out-of-place')
+        eng.unchanged(ye, y0, Y, adj, 'A.adjoint', tail, 'out-of-place')
+        if order == 'A-first' and _shares(Aty, ye):
+            eng.strata.append('alias:adjoint-result-views-argument')
+        if not abs(left - right) <= pair_tol:
+            raise Violation('C05|pair|{},order={}'.format(tail, order),
+                            'matrices satisfy the Gram identity but Re<Ax,y> '
+                            '= {!r} and Re<x,A*y> = {!r} for a dense pair '
+                            '(x and y used on both sides, {}; operator with '
+                            'state, or not linear?)'.format(left, right,
+                                                            order))
 
     # ---- complex linearity -----------------------------------------------
     if both_complex:
@@ -954,4 +1092,17 @@ REQUIRED_STRATA = [
     'cls:PartialDerivative', 'cls:Gradient', 'cls:Divergence',
     'cls:Laplacian', 'cls:ResizingOperator',
     'cls:WaveletTransform', 'cls:WaveletTransformInverse',
+    'family:views', 'family:inverses', 'entry:inverse',
+    'alias:result-views-argument',
+    'alias:operand-result-views-argument',
+    'alias:operand-result-views-argument:OperatorSum',
+    'alias:operand-result-views-argument:OperatorComp',
+    'alias:operand-result-views-argument:OperatorLeftVectorMult',
+    'alias:operand-result-views-argument:OperatorRightVectorMult',
+    'alias:operand-result-views-argument:OperatorLeftScalarMult',
+    'alias:operand-result-views-argument:OperatorRightScalarMult',
+    'alias:operand-result-views-argument:BroadcastOperator',
+    'alias:operand-result-views-argument:ReductionOperator',
+    'alias:operand-result-views-argument:DiagonalOperator',
+    'alias:operand-result-views-argument:ProductSpaceOperator',
 ]
